@@ -206,6 +206,26 @@ func (propC18) Gen(r *Rng, run uint64, tier string) *Plan {
 	if exhaustive {
 		p.Tags["exhaustive_orders"] = fmt.Sprint(n)
 	}
+	if raceMode() && len(contA) > 0 && r.Bool(0.4) {
+		// Race phase only: let the failure and cleanup paths run concurrently
+		// with the other opens, so that the detector sees them too.
+		fr := r.Sub("racefault")
+		c := contA[fr.Intn(len(contA))]
+		f := Fault{Container: c.ID, Open: -1}
+		switch fr.Intn(3) {
+		case 0:
+			f.Kind = FaultOpenError
+		case 1:
+			f.Kind = FaultReadError
+			f.Offset = fr.Intn(40)
+		default:
+			f.Kind = FaultOpenLatency
+			f.DelayMs = 1 + fr.Intn(50)
+		}
+		p.Faults = []Fault{f}
+		p.Config = "race_faults"
+		p.Tags["race_fault"] = f.Kind
+	}
 	return p
 }
 
@@ -230,6 +250,7 @@ func (propC18) Check(t *testing.T, p *Plan, st *Stats) *Violation {
 			st.NoteOutcome(o)
 			st.ProbeIf(p.Variants[vi].MapSeed != 0, "nonidentity_map_order")
 			st.ProbeIf(p.Variants[vi].Mode == "parallel", "parallel_release_execution")
+			st.ProbeIf(p.Variants[vi].Mode == "parallel" && len(p.Faults) > 0, "parallel_release_with_fault_"+p.Tags["race_fault"])
 		}
 		if o.Panic != "" {
 			return viol(vi, "C18(panic)", "no panic", clip(o.Panic, 600))
